@@ -240,7 +240,7 @@ func c09Run(t *testing.T, c c09Case) (*vsched.Exec, [][2]string) {
 func TestVerifC09(t *testing.T) {
 	r := ev.Begin("C09", "sequences")
 	defer r.End(t)
-	r.Rule = "message sequences fed to the real advertiser and the real monitor (instrumented, virtual clock, canonical schedule): (a) every single message type {RS,RA,NS,NA} x every hop limit 0..255; (b) all sequences of length<=L over {valid RS, RS hop 64, NS hop 255, RA hop 1, transient receive timeout (at most 4)} followed by a valid RS, i.e. runs of up to L consecutive invalid messages (retry budget is 5); oracle: invalid counter = number of invalid messages by type, handled/monitor counters = valid ones, one unicast RA per valid RS, every message read within 310ms of its arrival (receive back-off never grows with invalid traffic), Run still running and no re-dial at the end; states = sequences executed; non-trivial = sequence contains an invalid message; distinct = distinct (mode, sequence)"
+	r.Rule = "message sequences fed to the real advertiser and the real monitor (instrumented, virtual clock, canonical schedule): (a) every single message type {RS,RA,NS,NA} x every hop limit 0..255; (b) all sequences of length<=L over {valid RS, RS hop 64, NS hop 255, RA hop 1, transient receive timeout (at most 4)} followed by a valid RS; (c) runs of 1..12 consecutive invalid messages (pure, mixed, with a timeout inside; retry budget is 5) followed by a valid RS; oracle: invalid counter = number of invalid messages by type, handled/monitor counters = valid ones, one unicast RA per valid RS, every message read within 310ms of its arrival (receive back-off never grows with invalid traffic), Run still running and no re-dial at the end; states = sequences executed; non-trivial = sequence contains an invalid message; distinct = distinct (mode, sequence)"
 	if r.Replay != nil {
 		var c c09Case
 		if err := json.Unmarshal(r.Replay, &c); err != nil {
@@ -292,6 +292,27 @@ func TestVerifC09(t *testing.T) {
 					continue
 				}
 				one(c09Case{Monitor: mon, Seq: []c09Msg{{typ, h}, {"RS", 255}}})
+			}
+		}
+		// Long runs of consecutive invalid messages (well beyond the retry budget of 5),
+		// pure and mixed, with and without a transient timeout inside.
+		for k := 1; k <= 12; k++ {
+			for _, kind := range []string{"rs", "ra", "mixed", "mixed+timeout"} {
+				var c c09Case
+				c.Monitor = mon
+				for j := 0; j < k; j++ {
+					switch {
+					case kind == "rs" || (kind != "ra" && j%2 == 0):
+						c.Seq = append(c.Seq, c09Msg{"RS", 64})
+					default:
+						c.Seq = append(c.Seq, c09Msg{"RA", 1})
+					}
+					if kind == "mixed+timeout" && j == k/2 {
+						c.Seq = append(c.Seq, c09Msg{"TO", 0})
+					}
+				}
+				c.Seq = append(c.Seq, c09Msg{"RS", 255})
+				one(c)
 			}
 		}
 		alpha := []c09Msg{{"RS", 255}, {"RS", 64}, {"NS", 255}, {"RA", 1}, {"TO", 0}}
